@@ -185,7 +185,7 @@ CHECKS = {
         require=["scenarios", "quiescent_snapshots", "scenarios_reaching_their_schedule_point", "snapshots_with_blocked_callers",
                  "reached/after-failed-attempt-1", "reached/queue.after_push", "reached/queue.before_push", "reached/loser-retry",
                  "reached/handoff-vs-cancel", "reached/handoff-vs-timeout", "reached/asleep"],
-        rule="scenario grid = limiter kind (7) x release point (6-9) x capacity {1,2} x waiters {1,2,3} x outcome (3); quick runs the grid once, thorough 1500 "
+        rule="scenario grid = limiter kind (7) x release point (6-9) x capacity {1,2} x waiters {1,2,3} x outcome (3); quick runs the grid 3 times, thorough 1500 "
              "times with PRNG pause budgets / strategy kind / targeted waiter; non-trivial = schedule point reached and some waiter granted; distinct = distinct scenario tuples.",
         assumptions=COMMON_ASSUME + ["sync.Cond.Wait, channel ops and select are durably blocking in a bubble, sync.Mutex is not (a caller waiting for a mutex counts as running)",
                                      "pauses at schedule points are bounded yields, never waits: they cannot deadlock an implementation that holds a lock across the window"],
@@ -214,7 +214,7 @@ CHECKS = {
         require=["scenarios", "exact_return_instants_checked", "refused_calls_hold_nothing_checks", "calls_correctly_still_blocked",
                  "calls_exactly_at_the_deadline", "family/queue", "family/deadline", "family/blocking"],
         rule="grid = limiter kind (7) x cancel placement (6) x arrival placement (3, deadline only) x capacity exhausted/free, each with PRNG timeout "
-             "(1ms-1h), arrival and cancel instants; quick 5 per cell, thorough 2000; all cases non-trivial; distinct = distinct (cell, instants).",
+             "(1ms-1h), arrival and cancel instants; quick 20 per cell, thorough 5000; all cases non-trivial; distinct = distinct (cell, instants).",
         assumptions=COMMON_ASSUME + ["a release at exactly the bound is not judged here (either verdict is legal; conservation is C02)"],
     ),
     "C12": dict(
@@ -296,7 +296,7 @@ CHECKS = {
         level_text="One stress scenario per type family (8 limits incl. wrappers, 4 strategies with their partitions and dynamic add/remove, default / "
                    "blocking / deadline / queue limiters and their listeners, pools, 7 measurement primitives, both metric registries with 200us polling, "
                    "and an integrated limiter+limit+registry): 4-16 goroutines call every exported method (accessors, String, SetLimit, NotifyOnChange, "
-                   "Register*, Start/Stop, ...) of one shared instance in PRNG mixes under the race detector; each scenario is repeated (quick 5x, "
+                   "Register*, Start/Stop, ...) of one shared instance in PRNG mixes under the race detector; each scenario is repeated (quick 10x, "
                    "thorough 2000x) because races are schedule dependent; verif yield points are on in half of the runs. A report counts only if a frame "
                    "lies in the library; each distinct pair of innermost library functions is one violation signature. Exploration: it shows absence of "
                    "races only on the interleavings and paths exercised (per-method call counts are in the evidence).",
